@@ -112,7 +112,9 @@ def in_range_calls(F, rng, budget=300):
         calls.append(('get_trace_by_coord', [t, NONE, NONE]))
     for j, w in enumerate(boundary_windows(nz, bz)[:20]):
         calls.append(('get_trace', [(j * 7) % tc, w[0], w[1]]))
-    for cd in thin(range(-nx + 1, ni), rng, q):
+    # diagonal ordinals: a sample plus every ordinal next to where the formulas change branch (0, the difference and the extents)
+    cds = sorted(set(thin(range(-nx + 1, ni), rng, q)) | {v for v in (-1, 0, 1, ni - nx - 1, ni - nx, ni - nx + 1, nx - ni, -nx + 1, ni - 1) if -nx + 1 <= v <= ni - 1})
+    for cd in cds:
         calls.append(('read_correlated_diagonal', [cd, NONE, NONE, NONE, NONE]))
         ln = min(ni - cd, nx) if cd >= 0 else min(ni, nx + cd)
         if ln >= 1:
@@ -122,7 +124,8 @@ def in_range_calls(F, rng, budget=300):
             calls.append(('read_correlated_diagonal', [cd, a, b, w[0], w[1]]))
             calls.append(('read_correlated_diagonal', [cd, a, b, NONE, NONE]))
             calls.append(('read_correlated_diagonal', [cd, NONE, NONE, w[0], w[1]]))
-    for ad in thin(range(0, ni + nx - 1), rng, q):
+    ads = sorted(set(thin(range(0, ni + nx - 1), rng, q)) | {v for v in (0, nx - 2, nx - 1, nx, nx + 1, ni - 2, ni - 1, ni, ni + 1, ni + nx - 2) if 0 <= v <= ni + nx - 2})
+    for ad in ads:
         calls.append(('read_anticorrelated_diagonal', [ad, NONE, NONE, NONE, NONE]))
         ln = min(ni, ad + 1) - max(0, ad - nx + 1)
         if ln >= 1:
